@@ -75,8 +75,39 @@ def race_cases(stderr, ops_path):
     return len(seen)
 
 
+SITE_QUERY = """import D2V.Proofs.FoldPerm
+open D2V.Fold D2V.Gen.MapRanges
+def siteLine (s : Site) : String := s!"{s.group} {s.kind} {s.file} :: {s.fn} :: range {s.expr} (body hash {s.bh})"
+#eval IO.println (String.intercalate "\n" ((mapRangeSites.filter fun s => (classify s).isNone).map fun s => "UNCLASSIFIED " ++ siteLine s))
+#eval IO.println (String.intercalate "\n" ((mapRangeSites.filter fun s => (classify s).map LoopClass.orderFree == some false).map fun s => "NOT-ORDER-FREE " ++ siteLine s))
+#eval IO.println (String.intercalate "\n" ((mapRangeSites.filter fun s => s.kind == "globalwrite").map fun s => "GLOBALWRITE " ++ siteLine s))
+"""
+
+
+def name_sites(ctx, res):
+    """an obligation broke: say which sites of the tree under test have no row in the committed table (new range over
+    a map, changed loop body, new package-level write), so the replay file names them"""
+    q = os.path.join(ctx["work"], "SiteQuery.lean")
+    open(q, "w").write(SITE_QUERY)
+    with ctx["Lock"]("lake"):
+        rc, out, dt = ctx["run"](["lake", "env", "lean", q], cwd=ctx["lean"])
+    grp = ctx["pid"]
+    lines = [l for l in out.splitlines() if l.startswith(("UNCLASSIFIED " + grp, "NOT-ORDER-FREE " + grp, "GLOBALWRITE " + grp))]
+    uncl = [l for l in lines if l.startswith("UNCLASSIFIED")]
+    res["coverage"]["sites_report"] = lines[:40]
+    if uncl:
+        res["violations"].append({"kind": "proof-broken", "sig": "sites:unclassified", "theorem": "siteTable",
+                                  "detail": "sites without a row in Proofs/FoldPerm.lean siteTable (classify after reading the loop body): " + " ; ".join(uncl)[:1800],
+                                  "case": None})
+
+
 def run_flow(ctx, extra_env=None):
     res = {"violations": [], "ok": 0, "evaluations": 0, "distinct": [], "samples": [], "stats": {"hist": {}}, "coverage": {}}
+    if ctx["search"]:
+        try:
+            name_sites(ctx, res)
+        except Exception as e:  # never let the diagnosis hide the verdict
+            res["coverage"]["sites_report"] = ["site query failed: %s" % e]
     exe, err = ctx["build_harness"](ctx["pid"], ctx["entry"], ctx["ev"], ctx["work"])
     if err:
         res["violations"].append({"kind": "harness-error", "sig": "harness", "detail": err, "case": None, "theorem": "correspondence:" + ctx["pid"]})
